@@ -1007,6 +1007,38 @@ pub mod verif {
     }
 
     impl Engine {
+        /// one call of the private recursive search: play `mv` on `old_board` and search the
+        /// resulting position for the side `white` (true: the White policy, i.e. White to move
+        /// in the resulting position)
+        #[allow(clippy::too_many_arguments)]
+        pub fn verif_alphabeta(
+            &mut self,
+            white: bool,
+            mv: chess_movegen::ChessMove,
+            old_board: &Board,
+            three_fold: &super::ThreeFold,
+            timeout: impl super::TimeoutRef,
+            remaining_depth: u16,
+            current_depth: u16,
+            alpha: Score,
+            beta: Score,
+        ) -> Score {
+            let args = super::AlphaBetaArgs {
+                old_board,
+                timeout,
+                remaining_depth,
+                current_depth,
+                alpha,
+                beta,
+                list: super::BoardList::new(old_board, three_fold),
+            };
+            if white {
+                self.alphabeta::<White>(mv, &args)
+            } else {
+                self.alphabeta::<Black>(mv, &args)
+            }
+        }
+
         pub fn verif_eval(&mut self, board: &Board, current_depth: u16) -> Score {
             self.eval(board, current_depth)
         }
